@@ -455,8 +455,56 @@ def extract_flag(cases, drop=("valid", "declared")):
     return cases
 
 
+def tree_digest(extra=()):
+    """digest of every source file the pipeline result depends on: /repo's working
+    tree (not the commit id), the harness, and the given extra blobs"""
+    h = hashlib.sha256()
+    roots = [os.path.join(REPO, d) for d in ("typify-impl", "typify", "typify-macro", "cargo-typify")]
+    roots += [os.path.join(VERIF, "harness"), os.path.join(VERIF, "bin", "vlib.py")]
+    files = [os.path.join(REPO, "Cargo.lock"), os.path.join(REPO, "Cargo.toml")]
+    for r in roots:
+        if os.path.isfile(r):
+            files.append(r)
+            continue
+        for dp, dn, fn in os.walk(r):
+            dn[:] = [d for d in dn if d not in ("target", ".git")]
+            for f in fn:
+                files.append(os.path.join(dp, f))
+    for f in sorted(files):
+        h.update(f.encode())
+        try:
+            h.update(open(f, "rb").read())
+        except OSError:
+            pass
+    for e in extra:
+        h.update(e if isinstance(e, bytes) else str(e).encode())
+    return h.hexdigest()[:32]
+
+
 def run_gen_pipeline(prop, family, cases, nshards=8, timeout=3000):
-    """cases -> vdrive gen -> build/run generated crates -> merged events"""
+    """cases -> vdrive gen -> build/run generated crates -> merged events.
+    The result is cached under build/cache keyed by a digest of /repo's working tree,
+    the harness and the cases: a hit is what a rebuild would produce, a changed tree
+    never hits (several properties share one document pipeline)."""
+    key = tree_digest([family, json.dumps(cases, sort_keys=True)])
+    cdir = os.path.join(BUILD, "cache")
+    os.makedirs(cdir, exist_ok=True)
+    cpath_cache = os.path.join(cdir, key + ".json")
+    if os.path.exists(cpath_cache) and os.environ.get("VERIF_NO_CACHE") != "1":
+        d = json.load(open(cpath_cache))
+        d["stats"]["cache_hit"] = True
+        return d["events"], d["stats"]
+    events, st = _run_gen_pipeline(prop, family, cases, nshards, timeout)
+    # keep the cache small: at most 12 entries
+    old = sorted((os.path.getmtime(os.path.join(cdir, f)), f) for f in os.listdir(cdir))
+    for _, f in old[:-11]:
+        os.remove(os.path.join(cdir, f))
+    with open(cpath_cache, "w") as f:
+        json.dump({"events": events, "stats": st}, f)
+    return events, st
+
+
+def _run_gen_pipeline(prop, family, cases, nshards=8, timeout=3000):
     cpath = os.path.join(BUILD, "%s.cases.ndjson" % prop)
     apath = os.path.join(BUILD, "%s.api.ndjson" % prop)
     gdir = os.path.join(BUILD, "gen", prop)
